@@ -16,19 +16,26 @@ static Grp pick_grp(Ctx &ctx) {
   r.h = zpowm(r.g, zrand_below(ctx, r.q - 2) + 2, r.p); return r;
 }
 enum FaultKind { F_NONE = 0, F_SILENT, F_LIBSWITCH, F_WRONG_SHARE, F_DROP_AFTER };
-struct Faults { std::vector<int> kind; std::vector<size_t> arg, victim; std::string desc; size_t count = 0; };
-static Faults pick_faults(Ctx &ctx, size_t n, size_t maxf) {
-  Faults f; f.kind.assign(n, F_NONE); f.arg.assign(n, 0); f.victim.assign(n, 0); size_t k = maxf ? (size_t)ctx.c.range(0, maxf) : 0;
+struct Faults { std::vector<int> kind; std::vector<size_t> arg; std::vector<std::vector<bool> > victim; std::string desc; size_t count = 0; };
+// wrong-share: the faulty party follows the protocol, but the network tap adds 1 to its arg-th private value towards each party of a
+// generated victim set of 1..t+1 others (so the number of complaints lands below, at and above the disqualification threshold t, with
+// honest complainers and honest non-complainers side by side)
+static Faults pick_faults(Ctx &ctx, size_t n, size_t maxf, size_t t = 1) {
+  Faults f; f.kind.assign(n, F_NONE); f.arg.assign(n, 0); f.victim.assign(n, std::vector<bool>(n, false)); size_t k = maxf ? (size_t)ctx.c.range(1, maxf) : 0;
   std::vector<size_t> idx(n); for (size_t i = 0; i < n; i++) idx[i] = i;
   for (size_t i = 0; i < k; i++) { size_t j = i + ctx.c.index(n - i); std::swap(idx[i], idx[j]); size_t who = idx[i];
-    f.kind[who] = 1 + (int)ctx.c.weighted({2, 4, 3, 0}); // partial silence (drop-after) is not generated: cascaded time-outs at the parties that were still served
-    // desynchronise the honest parties, which is outside the synchrony assumption of the property (DESIGN.md, observation O6) f.arg[who] = ctx.c.index(12); f.victim[who] = (who + 1 + ctx.c.index(n - 1)) % n;
-    static const char *nm[] = {"", "silent", "library-switch", "wrong-share", "drop-after"}; f.desc += " P" + std::to_string(who) + ":" + nm[f.kind[who]] + (f.kind[who] >= F_WRONG_SHARE ? "(" + std::to_string(f.arg[who]) + "->P" + std::to_string(f.victim[who]) + ")" : ""); f.count++; }
+    f.kind[who] = 1 + (int)ctx.c.weighted({2, 3, 4, 0}); // partial silence (drop-after) is not generated: cascaded time-outs at the parties that were still served
+    // desynchronise the honest parties, which is outside the synchrony assumption of the property (DESIGN.md, observation O6)
+    static const char *nm[] = {"", "silent", "library-switch", "wrong-share", "drop-after"}; f.desc += " P" + std::to_string(who) + ":" + nm[f.kind[who]];
+    if (f.kind[who] == F_WRONG_SHARE) { f.arg[who] = ctx.c.weighted({5, 2, 1, 1}); size_t nv = 1 + ctx.c.weighted({3, 3, 1}) % (t + 1); if (nv > n - 1) nv = n - 1;
+      std::vector<size_t> others; for (size_t x = 0; x < n; x++) if (x != who) others.push_back(x);
+      f.desc += "(value#" + std::to_string(f.arg[who]) + "->"; for (size_t v = 0; v < nv; v++) { size_t z = v + ctx.c.index(others.size() - v); std::swap(others[v], others[z]); f.victim[who][others[v]] = true; f.desc += "P" + std::to_string(others[v]); } f.desc += ")"; }
+    f.count++; }
   return f;
 }
 static void install_tap(Cluster &cl, const Faults &f) {
   cl.uni.tap = [&cl, f](size_t from, size_t to, unsigned long idx, detsim::Z &v) -> int {
-    if (f.kind[from] == F_WRONG_SHARE && to == f.victim[from] && idx == f.arg[from]) { v += 1; return 0; }
+    if (f.kind[from] == F_WRONG_SHARE && f.victim[from][to] && idx == f.arg[from]) { v += 1; return 0; }
     if (f.kind[from] == F_DROP_AFTER) { unsigned long tot = 0; for (size_t x = 0; x < cl.n; x++) tot += cl.uni.count[from][x]; if (tot > f.arg[from] * 3) return 1; }
     return 0; };
   cl.bc.tap = [&cl, f](size_t from, size_t, unsigned long, detsim::Z &) -> int {
@@ -51,8 +58,8 @@ static void judge_shares(Ctx &ctx, const std::string &proto, const Grp &G, size_
 // --------------------------------------------------------------------------- GJKR New-DKG
 VF_SUB(gjkr_dkg, 110, 2500) {
   Grp G = pick_grp(ctx); size_t n = (size_t)ctx.c.range(4, ctx.thorough ? 7 : 6);
-  bool with_faults = ctx.c.prob(1, 2) && n >= 4; size_t tmax = (n - 1) / 3, t = (size_t)ctx.c.range(1, tmax); // the broadcast layer needs n > 3t // t = 0 is degenerate (a share is the secret; the classes use 0 as "no share")
-  Faults F = with_faults ? pick_faults(ctx, n, t) : pick_faults(ctx, n, 0);
+  bool with_faults = ctx.c.prob(3, 5) && n >= 4; size_t tmax = (n - 1) / 3, t = (size_t)ctx.c.range(1, tmax); // the broadcast layer needs n > 3t // t = 0 is degenerate (a share is the secret; the classes use 0 as "no share")
+  Faults F = with_faults ? pick_faults(ctx, n, t, t) : pick_faults(ctx, n, 0);
   std::vector<bool> present(n, true); for (size_t i = 0; i < n; i++) if (F.kind[i] == F_SILENT) present[i] = false;
   Cluster cl(n, t, present); install_tap(cl, F);
   std::vector<GennaroJareckiKrawczykRabinDKG *> dkg(n, nullptr); std::vector<bool> ret(n, false);
@@ -60,7 +67,7 @@ VF_SUB(gjkr_dkg, 110, 2500) {
   bool simok = cl.run(ctx, [&](PartyEnv &e) {
     dkg[e.i] = new GennaroJareckiKrawczykRabinDKG(n, t, e.i, G.p.get_mpz_t(), G.q.get_mpz_t(), G.g.get_mpz_t(), G.h.get_mpz_t(), G.F, G.G, true, false, "c15");
     e.rbc->setID("c15-gjkr-dkg"); ret[e.i] = dkg[e.i]->Generate(e.aiou, e.rbc, e.err, F.kind[e.i] == F_LIBSWITCH); e.rbc->unsetID(); });
-  ctx.desc << d.str() << " vtime=" << vf::vnow << " msgs=" << cl.uni.sent + cl.bc.sent; ctx.label("n=" + std::to_string(n)); ctx.label(F.count ? "with-faults" : "fault-free");
+  ctx.desc << d.str() << " vtime=" << vf::vnow << " msgs=" << cl.uni.sent + cl.bc.sent; ctx.label("n=" + std::to_string(n)); ctx.label(F.count ? "with-faults" : "fault-free"); for (size_t z = 0; z < n; z++) if (F.kind[z]) ctx.label(std::string("fault:") + (F.kind[z] == F_SILENT ? "silent" : F.kind[z] == F_LIBSWITCH ? "library-switch" : "wrong-share"));
   if (F.count >= 1 || n >= 4) ctx.nontrivial(d.str() + std::to_string(cl.bc.sent));
   if (!simok) ctx.fail("sharing/gjkr_dkg/simulation-deadlock-or-time-budget", d.str() + cl.task_errors());
   std::vector<size_t> H; for (size_t i = 0; i < n; i++) if (honest(F, i)) H.push_back(i);
@@ -80,8 +87,8 @@ VF_SUB(gjkr_dkg, 110, 2500) {
 // --------------------------------------------------------------------------- Pedersen VSS: share + reconstruct
 VF_SUB(pedersen_vss, 90, 2000) {
   Grp G = pick_grp(ctx); size_t n = (size_t)ctx.c.range(4, 6);
-  bool with_faults = ctx.c.prob(1, 2) && n >= 4; size_t tmax = (n - 1) / 3, t = (size_t)ctx.c.range(1, tmax); // the broadcast layer needs n > 3t
-  Faults F = with_faults ? pick_faults(ctx, n, t) : pick_faults(ctx, n, 0);
+  bool with_faults = ctx.c.prob(3, 5) && n >= 4; size_t tmax = (n - 1) / 3, t = (size_t)ctx.c.range(1, tmax); // the broadcast layer needs n > 3t
+  Faults F = with_faults ? pick_faults(ctx, n, t, t) : pick_faults(ctx, n, 0);
   size_t dealer = ctx.c.index(n); Z sigma = ctx.c.prob(1, 4) ? Z((unsigned long)ctx.c.index(3)) : zrand_below(ctx, G.q);
   std::vector<bool> present(n, true); for (size_t i = 0; i < n; i++) if (F.kind[i] == F_SILENT) present[i] = false;
   Cluster cl(n, t, present); install_tap(cl, F);
@@ -93,7 +100,7 @@ VF_SUB(pedersen_vss, 90, 2000) {
     if (e.i == dealer) ret[e.i] = vss[e.i]->Share(sigma.get_mpz_t(), e.aiou, e.rbc, e.err, F.kind[e.i] == F_LIBSWITCH); else ret[e.i] = vss[e.i]->Share(dealer, e.aiou, e.rbc, e.err, F.kind[e.i] == F_LIBSWITCH);
     e.rbc->unsetID(); cl.barrier(e, 1);
     e.rbc->setID("c15-vss-reconstruct"); Z s = 42; rret[e.i] = vss[e.i]->Reconstruct(dealer, s.get_mpz_t(), e.rbc, e.err); rec[e.i] = s; e.rbc->unsetID(); });
-  ctx.desc << d.str() << " vtime=" << vf::vnow; ctx.label("n=" + std::to_string(n)); ctx.label(F.count ? "with-faults" : "fault-free"); ctx.label(honest(F, dealer) ? "honest-dealer" : "faulty-dealer");
+  ctx.desc << d.str() << " vtime=" << vf::vnow; ctx.label("n=" + std::to_string(n)); ctx.label(F.count ? "with-faults" : "fault-free"); for (size_t z = 0; z < n; z++) if (F.kind[z]) ctx.label(std::string("fault:") + (F.kind[z] == F_SILENT ? "silent" : F.kind[z] == F_LIBSWITCH ? "library-switch" : "wrong-share")); ctx.label(honest(F, dealer) ? "honest-dealer" : "faulty-dealer");
   if (F.count >= 1 || n >= 4) ctx.nontrivial(d.str() + std::to_string(cl.bc.sent));
   if (!simok) ctx.fail("sharing/pedersen_vss/simulation-deadlock-or-time-budget", d.str() + cl.task_errors());
   std::vector<size_t> H; for (size_t i = 0; i < n; i++) if (honest(F, i)) H.push_back(i);
@@ -119,8 +126,8 @@ VF_SUB(pedersen_vss, 90, 2000) {
 // --------------------------------------------------------------------------- CGJKR DKG with refresh
 VF_SUB(cgjkr_dkg_refresh, 60, 1500) {
   Grp G = pick_grp(ctx); size_t n = (size_t)ctx.c.range(4, 5);
-  bool with_faults = ctx.c.prob(1, 2) && n >= 4; size_t tmax = (n - 1) / 3, t = (size_t)ctx.c.range(1, tmax); // the broadcast layer needs n > 3t
-  Faults F = with_faults ? pick_faults(ctx, n, t) : pick_faults(ctx, n, 0);
+  bool with_faults = ctx.c.prob(3, 5) && n >= 4; size_t tmax = (n - 1) / 3, t = (size_t)ctx.c.range(1, tmax); // the broadcast layer needs n > 3t
+  Faults F = with_faults ? pick_faults(ctx, n, t, t) : pick_faults(ctx, n, 0);
   std::vector<bool> present(n, true); for (size_t i = 0; i < n; i++) if (F.kind[i] == F_SILENT) present[i] = false;
   Cluster cl(n, t, present); install_tap(cl, F);
   std::vector<CanettiGennaroJareckiKrawczykRabinDKG *> dkg(n, nullptr); std::vector<bool> ret(n, false), rret(n, false); std::vector<Z> x_before(n), y_before(n); std::vector<std::vector<size_t> > qual_before(n);
@@ -130,7 +137,7 @@ VF_SUB(cgjkr_dkg_refresh, 60, 1500) {
     e.rbc->setID("c15-cgjkr-generate"); ret[e.i] = dkg[e.i]->Generate(e.aiou, e.rbc, e.err, F.kind[e.i] == F_LIBSWITCH); e.rbc->unsetID();
     x_before[e.i] = Z(dkg[e.i]->x_i); y_before[e.i] = Z(dkg[e.i]->y); qual_before[e.i] = dkg[e.i]->QUAL; cl.barrier(e, 1);
     e.rbc->setID("c15-cgjkr-refresh"); rret[e.i] = dkg[e.i]->Refresh(n, e.i, e.aiou, e.rbc, e.err, F.kind[e.i] == F_LIBSWITCH); e.rbc->unsetID(); });
-  ctx.desc << d.str() << " vtime=" << vf::vnow; ctx.label("n=" + std::to_string(n)); ctx.label(F.count ? "with-faults" : "fault-free");
+  ctx.desc << d.str() << " vtime=" << vf::vnow; ctx.label("n=" + std::to_string(n)); ctx.label(F.count ? "with-faults" : "fault-free"); for (size_t z = 0; z < n; z++) if (F.kind[z]) ctx.label(std::string("fault:") + (F.kind[z] == F_SILENT ? "silent" : F.kind[z] == F_LIBSWITCH ? "library-switch" : "wrong-share"));
   if (F.count >= 1 || n >= 4) ctx.nontrivial(d.str() + std::to_string(cl.bc.sent));
   if (!simok) ctx.fail("sharing/cgjkr_dkg/simulation-deadlock-or-time-budget", d.str() + cl.task_errors());
   std::vector<size_t> H; for (size_t i = 0; i < n; i++) if (honest(F, i)) H.push_back(i);
